@@ -72,7 +72,13 @@ func startNode(name string, join []string, pushPull time.Duration) (*node, error
 	return n, nil
 }
 
-func (n *node) stop() { n.peer.Leave(200 * time.Millisecond) }
+// stop leaves the cluster and releases the peer's sockets (Leave alone keeps the transport open - in
+// production the exit of the process closes it; thousands of cases in one test process would run out of
+// file descriptors)
+func (n *node) stop() {
+	n.peer.Leave(200 * time.Millisecond)
+	n.peer.VerifCloseTransport()
+}
 
 func (n *node) metric(name string, key string) float64 {
 	mfs, _ := n.reg.Gather()
